@@ -34,3 +34,11 @@ Definition run_tops (ops : list top) (probes : list key) : list (list Z) * list 
   (run_tops_with same_key_impl ops probes, run_tops_with same_key_spec ops probes).
 Definition run_same (a b : key) : Z * Z :=
   ((if same_key_impl a b then 1 else 0), (if same_key_spec a b then 1 else 0)).
+(* map:merge on typed keys: the merged map probed by get / contains / size; [[-9]] = FOJS0003 *)
+Definition run_tmerge_with (eqk : key -> key -> bool) (p : Z) (ms : list (tmap key)) (probes : list key) : list (list Z) :=
+  match tmerge eqk p ms with
+  | None => [[-9]]
+  | Some r => map (fun k => (if tcontains eqk r k then 1 else 0) :: tget eqk r k) probes ++ [[tsize r]]
+  end.
+Definition run_tmerge (p : Z) (ms : list (tmap key)) (probes : list key) : list (list Z) * list (list Z) :=
+  (run_tmerge_with same_key_impl p ms probes, run_tmerge_with same_key_spec p ms probes).
